@@ -166,7 +166,7 @@ pub fn check(case: &Case) -> Verdict {
     if ok_mul {
         // the result depends on the operands only
         let h = crate::hist::mix(&[crate::hist::mix_str(&amt::key(ta)), crate::hist::mix_str(&amt::key(pm)), crate::hist::mix_str(&amt::key(pa)), case.term_unit as u64, case.per_unit as u64, case.p_unit as u64]);
-        if h % 4 == 0 {
+        if h % 16 == 0 {
             if let Some(m) = crate::hist::independent(h, &|| crate::hist::show_q((r.rate_mul_qty)(r4, (pa, case.p_unit)))) {
                 fail!("{}: rate * value {}", note, m);
             }
